@@ -112,6 +112,7 @@ func checkC10(r *Run) {
 
 	// ---- r2: fid release discipline ----
 	nPut := 0
+	ownSeen := map[*ast.CallExpr]bool{}
 	// (sites in private helpers are judged inside the methods that call the helper)
 	for _, s := range m.contextSites("p9.pool.Put") {
 		if !strings.HasSuffix(s.recvStr(), ".fidPool") || s.St.Dead {
@@ -119,6 +120,33 @@ func checkC10(r *Run) {
 		}
 		nPut++
 		root := s.Root
+		// A helper that takes the fid from the pool itself, sends the binding request and
+		// returns the fid on failure is a unit of its own: it is judged in its own frame (once,
+		// whoever calls it).
+		if len(s.Inl) > 0 {
+			hd := s.Inl[len(s.Inl)-1].Decl
+			hf := r.L.FuncOf(info.Defs[hd.Name].(*types.Func))
+			var own *Site
+			if hf != nil {
+				for _, g := range m.DB.Calls["p9.pool.Get"] {
+					if g.Root != hf || !strings.HasSuffix(m.resolver(hf).str(unparen(g.Call.Fun).(*ast.SelectorExpr).X), ".fidPool") {
+						continue
+					}
+					for _, o := range m.DB.Calls["p9.pool.Put"] {
+						if o.Root == hf && o.Call == s.Call {
+							own = o
+						}
+					}
+				}
+			}
+			if own != nil {
+				if ownSeen[own.Call] {
+					continue
+				}
+				ownSeen[own.Call] = true
+				s, root = own, hf
+			}
+		}
 		key := fmt.Sprintf("%s: fidPool.Put(%s)", root.Key, nospace(s.arg(0)))
 		res := m.resolver(root)
 		arg := unparen(s.Call.Args[0])
